@@ -5,13 +5,57 @@ FAMILIES = ['kill', 'fatal', 'latekill', 'resize']
 PER_FAMILY = (300, 6000)
 
 
-PROOF = S.pool_proof('C02', ['C02_loud_before_any_broken_future', 'C02_broken_pool_refuses', 'C02_death_fails_everything_loudly', 'C02_manager_gone_means_all_settled', 'C02_unguarded_resize_refuted', 'C02_structure', 'C02_worker_never_leaves_silently'],
-                    "detection itself (the sentinel of a dead worker becomes ready) is the OS's; the identity of the failed futures is Model/TokenFlow.v's; exit codes in the message are not modelled", extra_gen=['Worker'])
+PROOF = S.pool_proof('C02', ['C02_loud_before_any_broken_future', 'C02_broken_pool_refuses', 'C02_death_fails_everything_loudly', 'C02_manager_gone_means_all_settled', 'C02_unguarded_resize_refuted', 'C02_structure', 'C02_worker_never_leaves_silently', 'C02_error_names_every_exit_code', 'C02_exit_code_names', 'C02_exit_codes_structure'],
+                    "detection itself (the sentinel of a dead worker becomes ready) is the OS's; the identity of the failed futures is Model/TokenFlow.v's; signal names are the OS's table (a parameter of the theorems)", extra_gen=['Worker', 'Exit'])
+
+
+def exit_differential(ctx, n):
+    """random lists of exit codes: the real _format_exitcodes vs the generated program evaluated in Coq (signal names: this OS's table)"""
+    import os, random, signal, sys
+    import vlib
+    if sys.path[0] != vlib.REPO:
+        sys.path.insert(0, vlib.REPO)
+    import loky.backend.utils as U
+    rng = random.Random(ctx.seed + 2)
+    pool = [None, 0, 1, 2, 3, 127, 254, 255, 256, -1, -2, -6, -9, -11, -15, -31, -34, -64, -65, -77, -128, -1000]
+    cases = [[rng.choice(pool) if rng.random() < 0.7 else rng.randint(-300, 400) for _ in range(rng.randint(0, 6))] for _ in range(n)]
+    real = [U._format_exitcodes(c) for c in cases]
+    names = sorted({(int(sg), sg.name) for sg in signal.Signals})
+    # the property itself, with no model in between
+    table = dict(names)
+    def want(c):
+        return "{" + ", ".join((table.get(-e, "UNKNOWN") if e < 0 else ("UNKNOWN" if e == 255 else "EXIT")) + f"({e})" for e in c if e is not None) + "}"
+    spec_bad = [{"codes": c, "implementation": r, "property_says": want(c)} for c, r in zip(cases, real) if r != want(c)]
+    def z(v):
+        return f"({v})%Z"
+    sig = "fun n => " + "".join(f"if (n =? {k})%Z then Some \"{nm}\" else " for k, nm in names) + "None"
+    rows = ";\n  ".join("([" + "; ".join("None" if v is None else f"Some {z(v)}" for v in c) + f"], \"{r}\")" for c, r in zip(cases, real))
+    txt = ("From Coq Require Import List String ZArith Bool.\nFrom LokyV Require Import Lib.PyLib Lib.ExitLib Gen.Exit Proofs.ExitThm.\n"
+           "Import ListNotations.\nOpen Scope string_scope.\n"
+           f"Definition sig : Z -> option string := {sig}.\n"
+           f"Definition cases : list (list (option Z) * string) := [\n  {rows}].\n"
+           "Eval vm_compute in (mismatches_from String.eqb (format_exitcodes sig) cases 0).\n")
+    ok, out = vlib.coq_eval(f"c02_exit_{os.getpid()}", txt)
+    body = out.split("=", 1)[1].split(":")[0] if ok and "=" in out else None
+    idx = [int(x) for x in (body or "").replace("[", " ").replace("]", " ").replace(";", " ").split() if x.isdigit()]
+    return {"ok": ok, "cases": n, "mismatches": [{"codes": cases[i], "implementation": real[i]} for i in idx[:5]], "n_mismatches": len(idx),
+            "error": None if ok else out[-300:], "against_the_property": spec_bad[:5], "n_against_the_property": len(spec_bad), "sample": {"codes": cases[0], "message_part": real[0]}}
 
 
 def run(ctx):
     from checks import realkill
+    import vlib
     extra = realkill.deaths(ctx)
+    ed = exit_differential(ctx, 300 if ctx.tier == "quick" else 3000)
+    extra["exit_code_formatting_differential"] = ed
+    if ed["n_against_the_property"]:
+        rp = vlib.write_replay(ctx, "exitcodes", {"kind": "the error message does not name the exit codes as the property says", "detail": ed})
+        ctx.violations.append((f"exit codes named wrongly on {ed['n_against_the_property']} of {ed['cases']} lists: "
+                               + str(ed["against_the_property"][0])[:140], rp, False))
+    elif ed["n_mismatches"] or not ed["ok"]:
+        rp = vlib.write_replay(ctx, "exitcodes", {"kind": "the generated exit-code formatting and the real _format_exitcodes differ (or the comparison did not run)", "detail": ed})
+        ctx.violations.append((f"exit-code formatting: model and implementation differ on {ed['n_mismatches']} of {ed['cases']} lists"
+                               if ed["n_mismatches"] else "exit-code formatting comparison did not run: " + str(ed["error"])[:100], rp, not ed["n_mismatches"]))
     return S.sim_check(ctx, FAMILIES, FAMILIES, PER_FAMILY, S.SIM_ASSUME, proof=PROOF, extra_cov=extra)
 
 
